@@ -279,7 +279,11 @@ pub fn drive(args: &[String]) {
     // (a) random loadable modules (any mix of opcodes)
     for k in 0..n {
         let (insts, _) = random_loadable(&g, &mut rng, k % 2 == 1, 3);
-        if let Some(m) = load_insts(&mut out, &insts) { out.ev(disasm_event(&v, &m, "random")); }
+        if let Some(mut m) = load_insts(&mut out, &insts) {
+            // every registered generator tool id (and a few unregistered ones) with arbitrary tool versions
+            if let Some(h) = m.header.as_mut() { h.generator = (((k % 20) as u32) << 16) | (rng.word() & 0xffff); }
+            out.ev(disasm_event(&v, &m, "random"));
+        }
     }
     // (b) every opcode once, and every enumerant / mask bit once, inside a loadable skeleton
     let skeleton = |body: Vec<SInst>, rng: &mut Rng| -> Vec<SInst> {
@@ -361,6 +365,10 @@ pub fn drive(args: &[String]) {
         for nn in nums {
             body.push(SInst { op: 12, rt: Some(50), rid: Some(200 + body.len() as u32), ops: vec![SOp::one("IdRef", set), SOp::one("LiteralExtInstInteger", nn), SOp::one("IdRef", 60), SOp::one("IdRef", 61)] });
         }
+    }
+    // no argument ids at all (the shortest OpExtInst still names its instruction)
+    for (set, nn) in [(1u32, 1u32), (1, 81), (2, 0), (2, 204), (3, 1), (1, 0), (2, 5000)] {
+        body.push(SInst { op: 12, rt: Some(50), rid: Some(5000 + body.len() as u32), ops: vec![SOp::one("IdRef", set), SOp::one("LiteralExtInstInteger", nn)] });
     }
     // the same number from the two known sets back to back, in both orders
     for nn in 0..90u32 {
